@@ -9,7 +9,6 @@
    of that theorem only.  58 is the colon, 34 the double quote;
    quoted t = 34 :: t ++ [34], weak_quoted t = W / 34 :: t ++ [34]. *)
 Require Import Verif.Base.Bytes Verif.Proofs.BytesFacts Verif.Model.Cup Verif.Proofs.CupFacts.
-Require Import Verif.Run.EvalC01 Verif.Proofs.EvalC01Facts.
 Open Scope N_scope.
 
 (* Accepted  <=>  the first ETag header is printable, and after parse_etag it
@@ -276,16 +275,6 @@ Theorem C01_tamper_signing_key :
     verify sha256 der_ok ecdsa_verify keys req resp nonce id (h :: rest) = inl SignatureError.
 Proof. exact tamper_signing_key. Qed.
 
-(* ---- about the correspondence run itself (Run/EvalC01.v): a case that is not
-   reported as ORACLE-MISS was evaluated without any defaulted oracle answer:
-   the model's result is independent of the lookup functions' default values ---- *)
-Theorem C01_eval_no_silent_default :
-  forall sd sd' bd bd' vd vd' keys req resp nonce id etags sha_t der_t ver_t,
-    oracle_complete sd keys req resp nonce id etags sha_t der_t ver_t = true ->
-    verify (sha_fn sd sha_t) (der_fn bd der_t) (ver_fn vd ver_t) keys req resp nonce id etags =
-    verify (sha_fn sd' sha_t) (der_fn bd' der_t) (ver_fn vd' ver_t) keys req resp nonce id etags.
-Proof. exact oracle_complete_no_default. Qed.
-
 (* ---- non-vacuity: a toy instantiation of the primitives (CupFacts.v) under
    which an authentic exchange is accepted in all three encodings, the premises
    of the tamper theorems hold, and the tampered exchanges are rejected ---- *)
@@ -340,4 +329,3 @@ Print Assumptions C01_tamper_hash_half.
 Print Assumptions C01_tamper_signature.
 Print Assumptions C01_tamper_signing_key.
 Print Assumptions C01_hex_either_case.
-Print Assumptions C01_eval_no_silent_default.
